@@ -291,6 +291,20 @@ def prove(label, claim, kind='post', clause=None, path=None):
                         ob.replay = {'error': 'concretise failed: %r' % (e,)}
     else:
         s = p.solver
+        if p.axioms:
+            # many claims need no quantified fact: try without them first (fewer hypotheses: still sound)
+            s.push()
+            s.set('timeout', 1500)
+            s.add(z3.Not(claim))
+            r0 = s.check()
+            s.pop()
+            if r0 == z3.unsat:
+                ob.verdict, ob.backend = 'discharged', 'z3-' + z3.get_version_string()
+                ob.time = round(time.time() - t0, 4)
+                RUN.solver_time += ob.time
+                RUN.obligations.append(ob)
+                s.set('timeout', RUN.fork_timeout_ms)
+                return True
         s.push()
         for ax in p.axioms:
             s.add(ax)
@@ -358,7 +372,7 @@ def prove(label, claim, kind='post', clause=None, path=None):
     ob.time = round(time.time() - t0, 4)
     RUN.solver_time += ob.time
     RUN.obligations.append(ob)
-    if ob.verdict == 'failed' and getattr(RUN, 'stop_on_failure', False):
+    if ob.verdict != 'discharged' and getattr(RUN, 'stop_on_failure', False):
         raise TwinDone()
     return ob.verdict == 'discharged'
 
